@@ -82,6 +82,10 @@ impl<'a> Serializer for RecSer<'a> {
         self.0.borrow_mut().0.push(format!("str:{v}"));
         Ok(())
     }
+    fn serialize_unit(self) -> Result<(), E> {
+        self.0.borrow_mut().0.push("unit".into());
+        Ok(())
+    }
     fn serialize_seq(self, len: Option<usize>) -> Result<Self::SerializeSeq, E> {
         self.0.borrow_mut().0.push(format!("UNEXPECTED seq({len:?})"));
         Err(E("array serialised as a variable-length sequence".into()))
@@ -89,7 +93,7 @@ impl<'a> Serializer for RecSer<'a> {
     unsupported! {
         serialize_bool(bool) -> (); serialize_i8(i8) -> (); serialize_i16(i16) -> (); serialize_i32(i32) -> (); serialize_i64(i64) -> ();
         serialize_u16(u16) -> (); serialize_u32(u32) -> (); serialize_f32(f32) -> (); serialize_f64(f64) -> (); serialize_char(char) -> ();
-        serialize_bytes(&[u8]) -> (); serialize_none() -> (); serialize_unit() -> (); serialize_unit_struct(&'static str) -> ();
+        serialize_bytes(&[u8]) -> (); serialize_none() -> (); serialize_unit_struct(&'static str) -> ();
         serialize_unit_variant(&'static str, u32, &'static str) -> ();
         serialize_tuple_struct(&'static str, usize) -> ser::Impossible<(), E>;
         serialize_tuple_variant(&'static str, u32, &'static str, usize) -> ser::Impossible<(), E>;
@@ -457,6 +461,55 @@ fn ser_cases<N: ArrayLength>(st: &mut Stats) {
     });
 }
 
+/// zero-sized elements still make N tuple slots: () and PhantomData serialise as unit values
+fn ser_zst_cases<N: ArrayLength>(st: &mut Stats) {
+    let n = N::USIZE;
+    st.check_case("C17", "serialize.zero_sized", "()/PhantomData", || format!("C17 serialize.zero_sized N={n}"), n > 0, || {
+        let a: GA<(), N> = GA::<(), N>::generate(|_| ());
+        let log = RefCell::new(SerLog::default());
+        a.serialize(RecSer(&log)).map_err(|e| format!("CallSequence: serializer error: {e}"))?;
+        let mut want = vec![format!("tuple({n})")];
+        for _ in 0..n {
+            want.push("element".into());
+            want.push("unit".into());
+        }
+        want.push("end".into());
+        if log.borrow().0 != want {
+            return Err(format!("CallSequence: zero-sized elements: {:?} instead of tuple({n}), {n} x (element, unit), end", &log.borrow().0[..log.borrow().0.len().min(8)]));
+        }
+        let j = serde_json::to_string(&a).map_err(|e| format!("JsonEncoding: {e}"))?;
+        let want_j = serde_json::to_string(&vec![(); n]).unwrap();
+        if j != want_j {
+            return Err(format!("JsonEncoding: {j} instead of {want_j}"));
+        }
+        let back: GA<(), N> = serde_json::from_str(&j).map_err(|e| format!("RoundTrip: {e}"))?;
+        let _ = back;
+        let v = serde_json::to_value(&a).map_err(|e| format!("ValueEncoding: {e}"))?;
+        if v.as_array().map(|x| x.len()) != Some(n) {
+            return Err(format!("ValueEncoding: {v} is not an array of {n} nulls"));
+        }
+        let p: GA<core::marker::PhantomData<u32>, N> = GA::generate(|_| core::marker::PhantomData);
+        let jp = serde_json::to_string(&p).map_err(|e| format!("JsonEncoding: {e}"))?;
+        if jp != want_j {
+            return Err(format!("JsonEncoding: PhantomData elements: {jp} instead of {want_j}"));
+        }
+        let _: GA<core::marker::PhantomData<u32>, N> = serde_json::from_str(&jp).map_err(|e| format!("RoundTrip: {e}"))?;
+        // wrong lengths of a self-describing input are still rejected
+        if n > 0 && serde_json::from_str::<GA<(), N>>("[]").is_ok() {
+            return Err("WrongLengthAccepted: [] accepted for N > 0 zero-sized elements".into());
+        }
+        let more = serde_json::to_string(&vec![(); n + 1]).unwrap();
+        if serde_json::from_str::<GA<(), N>>(&more).is_ok() {
+            return Err("WrongLengthAccepted: N+1 nulls accepted".into());
+        }
+        let b = bincode::serialize(&a).map_err(|e| format!("BincodeEncoding: {e}"))?;
+        if !b.is_empty() {
+            return Err("BincodeEncoding: zero-sized elements produced bytes (a length prefix?)".into());
+        }
+        Ok(())
+    });
+}
+
 fn script_cases<N: ArrayLength>(st: &mut Stats) {
     let n = N::USIZE;
     let delivers: Vec<usize> = (0..=n + 2).collect();
@@ -584,6 +637,7 @@ fn main() {
     let mut st = Stats::new("serdeq", &args);
     if args.part_on("formats") {
         lens!(&mut st, args, ser_cases, [0, 1, 2, 3, 4, 5, 6, 7, 8, 16, 17, 32, 33, 100]);
+        lens!(&mut st, args, ser_zst_cases, [0, 1, 2, 3, 5, 8, 17, 100]);
     }
     if args.part_on("scripted") {
         lens!(&mut st, args, script_cases, [0, 1, 2, 3, 4, 5, 6, 7, 8]);
